@@ -218,6 +218,7 @@ pub struct VerifiableEncryptionDecryptionProof {
     /// The message decomposed into schnorr byte proofs
     pub byte_proofs: [ByteProof; 32],
     /// Byte range proofs
+    #[serde(deserialize_with = "crate::utils::deserialize_range_proof")]
     pub range_proof: RangeProof,
     /// DLog proof
     pub c1: G1Projective,
